@@ -105,6 +105,18 @@ def independent_axes(w):
     return sorted((root_axes & nonempty) - reduced - internal), sorted(reduced & root_axes)
 
 
+def _grown_axes(w):
+    """Axes that are independent while the last function is not yet part of the pipeline and reduced once it is."""
+    if len(w["functions"]) < 2:
+        return []
+    small = sub_workload(w, [fd["name"] for fd in w["functions"][:-1]])
+    if len(small["functions"]) != len(w["functions"]) - 1:
+        return []
+    ind_small, _ = independent_axes(small)
+    _, red = independent_axes(w)
+    return [a for a in red if a in ind_small and w["indices"][a] > 0]
+
+
 def sub_workload(w, fn_names):
     """The part of the workload needed to compute the outputs of the given functions."""
     prod = {o: fd for fd in w["functions"] for o in fd["outputs"]}
@@ -170,6 +182,12 @@ def gen_partition(tape, n):
 def gen_case(tape, tier):
     fam = tape.pick(["parts", "parts", "learners", "learners", "reject"], "family")
     w = None
+    if fam == "reject" and tape.coin(0.4, "want-grown"):
+        for _ in range(12):
+            cand = gen_workload(tape, max_funcs=4, min_funcs=2)
+            if _grown_axes(cand):
+                return {"family": "reject", "workload": cand, "fixed": {tape.pick(_grown_axes(cand), "axis"): 0},
+                        "kind": "reduced-after-add", "config": {"storage": tape.pick(list(C.STORAGES), "storage")}}
     for _ in range(8):
         cand = gen_workload(tape, max_funcs=4, allow_nomap=fam != "parts" or True)
         ind, red = independent_axes(cand)
@@ -181,9 +199,18 @@ def gen_case(tape, tier):
     ind, red = independent_axes(w)
     if fam == "reject":
         red = [a for a in red if w["indices"][a] > 0]  # on an empty axis index 0 is also out of range (IndexError is right)
-        kind = tape.pick(["unknown", "range"] + (["reduced"] if red else []), "reject-kind")
+        grown = _grown_axes(w)
+        kind = tape.pick(["unknown", "range"] + (["reduced"] if red else []) + (["reduced-after-add"] * 2 if grown else []), "reject-kind")
         if kind == "unknown":
-            fixed = {"zz": 0}
+            # a name that is not an axis: made up, or the name of something else the pipeline knows (an array, an
+            # output, a scalar input, a function), alone or next to a valid axis
+            names = ["zz"] + sorted(w["inputs"]) + all_outputs(w) + [fd["name"] for fd in w["functions"]]
+            names = [n for n in names if n not in w["indices"]]
+            fixed = {tape.pick(names, "unknown-name"): 0}
+            if tape.coin(0.3, "with-valid-axis"):
+                fixed[tape.pick(ind, "axis")] = 0
+        elif kind == "reduced-after-add":
+            fixed = {tape.pick(grown, "axis"): 0}
         elif kind == "range":
             a = tape.pick(ind, "axis")
             fixed = {a: w["indices"][a] + tape.choose(2, "over")}
@@ -223,6 +250,8 @@ def gen_case(tape, tier):
                            "show_progress": bool(tape.coin(0.15, "show-progress"))}}
         if output_fns:
             case["output_fns"] = output_fns
+        if tape.coin(0.3, "repeat-part"):
+            case["repeat_part"] = tape.choose(len(parts), "which-part")
         if not output_fns and any(isinstance(v, int) and v < 0 for p_ in parts for v in p_.values()) and tape.coin(0.5, "reuse"):
             # the caller keeps its request objects and uses the very same dicts again on a data set whose
             # partitioned axes are one longer: -1 must then mean the new last element
@@ -253,8 +282,18 @@ def simplify(case):
             c = copy.deepcopy(case)
             del c["parts"][i]
             c["complete"] = False
+            rp = c.get("repeat_part")
+            if rp is not None:
+                if rp == i:
+                    del c["repeat_part"]
+                elif rp > i:
+                    c["repeat_part"] = rp - 1
             yield c
     if case["family"] == "parts":
+        if case.get("repeat_part") is not None:
+            c = copy.deepcopy(case)
+            del c["repeat_part"]
+            yield c
         if isinstance(case["config"]["storage"], dict):
             for s in sorted(set(case["config"]["storage"].values())):
                 c = copy.deepcopy(case)
@@ -340,7 +379,11 @@ def run_case(case, exec_seed=None, exec_tape=None):
         try:
             with C.new_sim(Tape(recorded=[]), preempt=0.0):
                 # the tree refuses to construct some valid (sub-)pipelines (C01's business): not a C06 question
-                build_pipeline(w_full).subpipeline(set(build_inputs(w)), output_names_arg(w_full, case["output_fns"]))
+                sub = build_pipeline(w_full).subpipeline(set(build_inputs(w)), output_names_arg(w_full, case["output_fns"]))
+                got = {n for f in sub.functions for n in ([f.output_name] if isinstance(f.output_name, str) else f.output_name)}
+                if got != set(all_outputs(w)):
+                    # ... and silently drops functions whose root arguments all come from defaults (noted in DESIGN 11)
+                    raise ValueError("sub-pipeline incomplete")
         except Exception:  # noqa: BLE001
             out["discarded"] = True
             out["exec_tape"] = []
@@ -377,7 +420,39 @@ def run_case(case, exec_seed=None, exec_tape=None):
             digests.append(sim.kernel.digest())
             return box.get("r"), err, sim
 
-        if fam == "reject":
+        if fam == "reject" and case["kind"] == "reduced-after-add":
+            (axis, _i), = case["fixed"].items()
+            if axis not in _grown_axes(w):
+                out["discarded"] = True
+                out["exec_tape"] = []
+                return out
+            small = sub_workload(w, [fd["name"] for fd in w["functions"][:-1]])
+            state = {}
+
+            def go(sim):
+                # the request is fine while the reducing function is not there ...
+                p = build_pipeline(small)
+                p.map(build_inputs(small), run_folder=folder + "-before", parallel=False, storage=case["config"]["storage"],
+                      fixed_indices=_fx(case["fixed"]), cleanup=False, **map_kwargs(small))
+                state["calls_before"] = len(sim.calls)
+                # ... the pipeline then grows in place by a function that reduces the axis: the same request must be refused
+                p.add(build_pipeline(w).functions[-1])
+                return p.map(build_inputs(w), run_folder=folder, parallel=False, storage=case["config"]["storage"],
+                             fixed_indices=_fx(case["fixed"]), cleanup=False, **map_kwargs(w))
+
+            _r, err, sim = process(go)
+            if "calls_before" not in state:
+                out["discarded"] = True  # the smaller pipeline refused the request: nothing to learn here
+                out["exec_tape"] = []
+                return out
+            if err is None:
+                V("reject", "reduced-after-add-accepted", {"fixed": case["fixed"], "added": w["functions"][-1]["name"]})
+            elif not isinstance(err, ValueError):
+                V("reject", f"reduced-after-add-raised-{type(err).__name__}", {"fixed": case["fixed"], "exc": repr(err)[:300]}, {"frame": _frame(err)})
+            elif len(sim.calls) > state["calls_before"]:
+                V("reject", "user-code-ran-before-rejection", {"fixed": case["fixed"], "calls": len(sim.calls) - state["calls_before"]})
+            probes["reject:reduced-after-add"] = 1
+        elif fam == "reject":
             def go(sim):
                 p = build_pipeline(w)
                 return p.map(build_inputs(w), run_folder=folder, parallel=False, storage=case["config"]["storage"],
@@ -451,12 +526,29 @@ def _run_parts(case, w, ref, folder, process, V, probes, w_full=None):
                 st = res[o].store
                 if isinstance(st, StorageBase):
                     masks[o] = np.asarray(np.ma.getdata(st.mask)).astype(bool)
-            return masks
+            return masks, {o: canon(res[o].output) for o in all_outputs(w) if o in res}
 
-        masks, err, sim = process(go, preempt=cfg["preempt"])
+        got_go, err, sim = process(go, preempt=cfg["preempt"])
         if err is not None:
             V("parts", f"part-raised:{type(err).__name__}", {"part": part, "index": pi, "exc": repr(err)[:300]}, {"frame": _frame(err)})
             return
+        masks, outs = got_go
+        if case.get("repeat_part") == pi:
+            # the same request once more: everything selected is stored already, so nothing is computed and the
+            # returned results are the ones the first execution of this part returned
+            again, err, sim2 = process(go, preempt=cfg["preempt"])
+            probes["part_repeated"] = 1
+            if err is not None:
+                V("parts", f"repeated-part-raised:{type(err).__name__}", {"part": part, "exc": repr(err)[:300]}, {"frame": _frame(err)})
+                return
+            if sim2.calls:
+                V("parts", "repeated-part-recomputed", {"part": part, "calls": [repr(c) for c in sim2.calls][:3]})
+                return
+            if again[1] != outs:
+                bad = next(o for o in outs if again[1].get(o) != outs[o])
+                V("parts", "repeated-part-returned-other-results", {"part": part, "output": bad, "first": repr(outs[bad])[:300],
+                                                                   "repeated": repr(again[1].get(bad))[:300]})
+                return
         done.append(part)
         probes["parts_run"] = probes.get("parts_run", 0) + 1
         exp = _masks_expected(w, done)
